@@ -1011,60 +1011,166 @@ func g24FirstArgNotNil(c *Ctx) bool {
 	if genAdd == nil {
 		return false
 	}
+	// P: "the first argument is the untyped nil". A P-test is `B.Kind() == types.UntypedNil` (alone or as a conjunct, e.g.
+	// with the ok of the assertion) where B comes from `B, ok := <…>.Args[0].(*types.Basic)`; a boolean variable carries P when
+	// every assignment to it is the constant false or a P-test. Rule (CFG): no path from the entry reaches the generator's Add
+	// without passing a P-test on its false edge — except through the "no arguments" edge of a test of len(<…>.Args) — and the
+	// true edge of a P-test does not reach it.
+	basics := map[types.Object]bool{}
+	oks := map[types.Object]bool{}
 	ast.Inspect(fi.Decl.Body, func(n ast.Node) bool {
-		ifs, ok := n.(*ast.IfStmt)
-		if !ok || res {
+		as, ok := n.(*ast.AssignStmt)
+		if !ok || len(as.Rhs) != 1 || len(as.Lhs) < 1 {
 			return true
 		}
-		// init: basic, ok := call.Args[0].(*types.Basic)
-		as, ok := ifs.Init.(*ast.AssignStmt)
-		if !ok || len(as.Rhs) != 1 {
+		ta, ok := ast.Unparen(as.Rhs[0]).(*ast.TypeAssertExpr)
+		if !ok || ta.Type == nil || !strings.HasSuffix(exprStr(ta.X), ".Args[0]") || exprStr(ta.Type) != "*types.Basic" {
 			return true
 		}
-		ta, ok := as.Rhs[0].(*ast.TypeAssertExpr)
-		if !ok || !strings.HasSuffix(exprStr(ta.X), ".Args[0]") || exprStr(ta.Type) != "*types.Basic" {
-			return true
+		if id, ok := as.Lhs[0].(*ast.Ident); ok {
+			if o := objOf(info, id); o != nil {
+				basics[o] = true
+			}
 		}
-		condOK := false
-		ast.Inspect(ifs.Cond, func(m ast.Node) bool {
-			if be, ok := m.(*ast.BinaryExpr); ok && be.Op == token.EQL && strings.HasSuffix(exprStr(be.X), ".Kind()") {
-				if tv, has := info.Types[be.Y]; has && tv.Value != nil && tv.Value.String() == fmt.Sprint(int(types.UntypedNil)) {
-					condOK = true
+		if len(as.Lhs) == 2 {
+			if id, ok := as.Lhs[1].(*ast.Ident); ok {
+				if o := objOf(info, id); o != nil {
+					oks[o] = true
 				}
 			}
-			return true
-		})
-		if be, ok := ifs.Cond.(*ast.BinaryExpr); !ok || be.Op != token.LAND {
-			condOK = false // the test must not be weakened by a disjunction
-		}
-		if !condOK {
-			return true
-		}
-		returnsErr := false
-		for _, st := range ifs.Body.List {
-			if ret, ok := st.(*ast.ReturnStmt); ok && len(ret.Results) == 2 {
-				if id, isID := ret.Results[1].(*ast.Ident); !isID || id.Name != "nil" {
-					returnsErr = true
-				}
-			}
-		}
-		anchor := ifs.Cond.Pos()
-		// `if len(call.Args) > 0 { if basic, ok := … }`: a call without arguments has no first argument
-		ast.Inspect(fi.Decl.Body, func(k ast.Node) bool {
-			outer, ok := k.(*ast.IfStmt)
-			if !ok || outer.Else != nil || len(outer.Body.List) == 0 || outer.Body.List[0] != ast.Stmt(ifs) {
-				return true
-			}
-			if be, ok := outer.Cond.(*ast.BinaryExpr); ok && (be.Op == token.GTR || be.Op == token.NEQ) && strings.HasPrefix(exprStr(be.X), "len(") && strings.HasSuffix(exprStr(be.X), ".Args)") && exprStr(be.Y) == "0" {
-				anchor = outer.Cond.Pos()
-			}
-			return true
-		})
-		if returnsErr && g.posDominates(anchor, genAdd.Pos()) {
-			res = true
 		}
 		return true
 	})
+	var isPTest func(e ast.Expr) bool
+	isPTest = func(e ast.Expr) bool {
+		switch x := ast.Unparen(e).(type) {
+		case *ast.BinaryExpr:
+			if x.Op == token.LAND {
+				// only the ok of the assertion may stand next to the test: any other conjunct weakens the rejection
+				isOK := func(y ast.Expr) bool {
+					id, ok := ast.Unparen(y).(*ast.Ident)
+					return ok && oks[info.Uses[id]]
+				}
+				return (isOK(x.X) && isPTest(x.Y)) || (isPTest(x.X) && isOK(x.Y))
+			}
+			if x.Op == token.EQL {
+				if c, ok := ast.Unparen(x.X).(*ast.CallExpr); ok {
+					if sel, ok := c.Fun.(*ast.SelectorExpr); ok && sel.Sel.Name == "Kind" {
+						if id, ok := ast.Unparen(sel.X).(*ast.Ident); ok && basics[info.Uses[id]] {
+							if tv, has := info.Types[x.Y]; has && tv.Value != nil && tv.Value.String() == fmt.Sprint(int(types.UntypedNil)) {
+								return true
+							}
+						}
+					}
+				}
+			}
+		}
+		return false
+	}
+	carriers := map[types.Object]bool{}
+	notCarrier := map[types.Object]bool{}
+	ast.Inspect(fi.Decl.Body, func(n ast.Node) bool {
+		as, ok := n.(*ast.AssignStmt)
+		if !ok || len(as.Lhs) != len(as.Rhs) {
+			return true
+		}
+		for k, l := range as.Lhs {
+			id, ok := l.(*ast.Ident)
+			if !ok {
+				continue
+			}
+			o := objOf(info, id)
+			if o == nil || !types.Identical(o.Type(), types.Typ[types.Bool]) {
+				continue
+			}
+			if tv, has := info.Types[as.Rhs[k]]; has && tv.Value != nil && tv.Value.String() == "false" {
+				continue
+			}
+			if isPTest(as.Rhs[k]) {
+				carriers[o] = true
+			} else {
+				notCarrier[o] = true
+			}
+		}
+		return true
+	})
+	condIsP := func(e ast.Expr) bool {
+		if isPTest(e) {
+			return true
+		}
+		if id, ok := ast.Unparen(e).(*ast.Ident); ok {
+			o := info.Uses[id]
+			return carriers[o] && !notCarrier[o]
+		}
+		return false
+	}
+	// len(<…>.Args) > 0 / != 0 / == 0: which edge is the "there is a first argument" edge
+	hasArgEdge := func(e ast.Expr) (int, bool) {
+		be, ok := ast.Unparen(e).(*ast.BinaryExpr)
+		if !ok || !strings.HasPrefix(exprStr(be.X), "len(") || !strings.HasSuffix(exprStr(be.X), ".Args)") || exprStr(be.Y) != "0" {
+			return 0, false
+		}
+		switch be.Op {
+		case token.GTR, token.NEQ:
+			return 0, true
+		case token.EQL:
+			return 1, true
+		}
+		return 0, false
+	}
+	gb, _ := g.locate(genAdd.Pos())
+	if gb == nil {
+		return false
+	}
+	tests := 0
+	okTrueEdges := true
+	seen := map[*cfg.Block]bool{}
+	reached := false
+	var dfs func(b *cfg.Block)
+	dfs = func(b *cfg.Block) {
+		if seen[b] || reached {
+			return
+		}
+		seen[b] = true
+		if b == gb {
+			reached = true
+			return
+		}
+		if len(b.Succs) == 2 && len(b.Nodes) > 0 {
+			if cond, ok := b.Nodes[len(b.Nodes)-1].(ast.Expr); ok {
+				if condIsP(cond) {
+					tests++
+					return // every way on from here took the test (its "is nil" edge is judged below)
+				}
+				if edge, ok := hasArgEdge(cond); ok {
+					dfs(b.Succs[edge])
+					return
+				}
+			}
+		}
+		for _, sx := range b.Succs {
+			dfs(sx)
+		}
+	}
+	if e := g.entry(); e != nil {
+		dfs(e)
+	}
+	// the true edge of every P-test must end in an error return before Add: checked as "Add not reachable without the test
+	// again"; a P-test whose true edge falls through to Add is no rejection
+	for _, b := range g.Blocks {
+		if len(b.Succs) != 2 || len(b.Nodes) == 0 {
+			continue
+		}
+		cond, ok := b.Nodes[len(b.Nodes)-1].(ast.Expr)
+		if !ok || !condIsP(cond) {
+			continue
+		}
+		// from the true edge, stopping at loop heads (the next plugin is a new iteration, the test is taken again)
+		if g.reachable([]*cfg.Block{b.Succs[0]}, func(x *cfg.Block) bool { return x.Kind == cfg.KindRangeLoop || x.Kind == cfg.KindForLoop })[gb] || b.Succs[0] == gb {
+			okTrueEdges = false
+		}
+	}
+	res = tests > 0 && !reached && okTrueEdges
 	return res
 }
 
